@@ -248,6 +248,8 @@ let () =
         | ["H"; t] -> do_event (EHost (z_of_string t))
         | ["P"; i; hex] -> do_event (EPkt (z_of_int (int_of_string i), bytes_of_hex hex))
         | ["P"; i] -> do_event (EPkt (z_of_int (int_of_string i), []))
+        | ["Z"; i] -> Hashtbl.remove descs (int_of_string i); do_event (EDestroy (z_of_int (int_of_string i)))
+        | ["PAR"] | ["ENDPAR"] -> ()
         | ["X"; i] -> do_event (EStop (z_of_int (int_of_string i)))
         | ["T"; i] -> do_event (ETemp (z_of_int (int_of_string i)))
         | ["G"; i] -> do_event (EDev (z_of_int (int_of_string i)))
